@@ -1,9 +1,227 @@
 /-
 C10 — the layer tree stays well-formed under every edit history.
+
+`Inv` (Lemmas/TreeBasic.lean): (I1) every layer listed in a container reports that container as
+its parent and the container's document as its document, (I2) no list contains a layer twice —
+with I1: no layer is listed twice at all, (I3) the listing relation is acyclic (rank form),
+plus store hygiene. (I4) "traversal visits every layer exactly once" is the theorem
+`descendants_nodup`. All statements are about `Cfg.current`, the code as repaired; the
+theorems named `legacy_…` are the machine-checked counterexamples of the snapshot.
 -/
-import PsdVerif.Model.TreeState
+import PsdVerif.Lemmas.TreeStep2
 
 namespace PsdVerif.C10
 open PsdVerif PsdVerif.Tree
+
+/-! ### The invariant holds initially and is preserved -/
+
+theorem inv_init (limit : Nat) : Inv (State.empty limit) where
+  live := by intro c x hx; cases hx
+  contOnly := by intro c h; exact absurd rfl h
+  layerOnly := by intro c x hx; cases hx
+  parentOk := by intro c x hx; cases hx
+  psdOk := by intro c x d hx; cases hx
+  nodup := by intro c; exact List.nodup_nil
+  acyclic := ⟨fun _ => 0, by intro c x hx; cases hx⟩
+
+/-- **Invariant step** (exact guard). An operation preserves the invariant provided the layers it
+inserts are listed nowhere (`Guard`: the other operations detach first) and the interpreter's
+recursion limit is not hit. Refused operations are included. -/
+theorem inv_step_partial (s : State) (op : Op) (i : Inv s) (hg : Guard s op)
+    (hne : (step .current s op).2 ≠ .error .recursionError) : Inv (step .current s op).1 := by
+  have hself : Cfg.current.itemSelfCheck = true := rfl
+  cases op with
+  | append g x =>
+    simp only [step, Op.target] at hne ⊢
+    split
+    · exact i
+    · rename_i h; rw [if_neg h] at hne
+      exact inv_opAppend i hself g x (by simpa using h) hg hne
+  | extend g xs =>
+    simp only [step, Op.target] at hne ⊢
+    split
+    · exact i
+    · rename_i h; rw [if_neg h] at hne
+      exact inv_opExtend i hself g xs (by simpa using h) hg.1 hg.2 hne
+  | insert g k x =>
+    simp only [step, Op.target] at hne ⊢
+    split
+    · exact i
+    · rename_i h; rw [if_neg h] at hne
+      exact inv_opInsert i hself g k x (by simpa using h) hg hne
+  | remove g x =>
+    simp only [step, Op.target]
+    split
+    · exact i
+    · exact inv_opRemove i g x
+  | pop g k =>
+    simp only [step, Op.target]
+    split
+    · exact i
+    · exact inv_opPop i g k
+  | clear g =>
+    simp only [step, Op.target]
+    split
+    · exact i
+    · exact inv_opClear i g
+  | setitem g k x =>
+    simp only [step, Op.target] at hne ⊢
+    split
+    · exact i
+    · rename_i h; rw [if_neg h] at hne
+      exact inv_opSetitem i hself g k x (by simpa using h) hg hne
+  | setslice g a b xs =>
+    simp only [step, Op.target] at hne ⊢
+    split
+    · exact i
+    · rename_i h; rw [if_neg h] at hne
+      exact inv_opSetslice i hself g a b xs (by simpa using h) hg.1 hg.2 hne
+  | delitem g k =>
+    simp only [step, Op.target]
+    split
+    · exact i
+    · exact inv_opDelitem i g k
+  | delslice g a b =>
+    simp only [step, Op.target]
+    split
+    · exact i
+    · exact inv_opDelslice i g a b
+  | deleteLayer x => exact inv_opDeleteLayer i x
+  | moveToGroup x g => exact inv_opMoveToGroup i hself x g hne
+  | moveUp x k => exact inv_opMoveUp i hself x k hne
+  | moveDown x k => exact inv_opMoveUp i hself x (-k) hne
+  | newGroup p => exact inv_opNewGroup i hself p hne
+  | groupLayers xs p => exact inv_opGroupLayers i hself rfl xs p hne
+  | newLayer p bx => exact inv_alloc i _ _ _
+  | newDoc bx => exact inv_alloc i _ _ _
+  | setVisible x v => exact inv_opSetVisible i x v
+  | setLeft x v => exact inv_opSetOffset i x true v
+  | setTop x v => exact inv_opSetOffset i x false v
+  | observe o => exact (observe_same s o).inv i
+
+/-- a history all of whose steps satisfy the guard and stay below the recursion limit -/
+def Guarded (cfg : Cfg) : State → List Op → Prop
+  | _, [] => True
+  | s, op :: ops => Guard s op ∧ (step cfg s op).2 ≠ .error .recursionError ∧ Guarded cfg (step cfg s op).1 ops
+
+/-- **Invariant over histories**: at every point of every guarded edit history. -/
+theorem inv_history (s : State) (ops : List Op) (i : Inv s) (h : Guarded .current s ops) :
+    Inv (runState .current s ops) := by
+  induction ops generalizing s with
+  | nil => exact i
+  | cons op ops ih =>
+    obtain ⟨hg, hne, hrest⟩ := h
+    exact ih _ (inv_step_partial s op i hg hne) hrest
+
+/-! ### Consequences of the invariant -/
+
+/-- (I1) every layer below a document reports that document, and its parent pointer names the
+container that lists it. -/
+theorem reachable_pointers (s : State) (i : Inv s) (d x : Id) (hd : s.kind d = .doc) (r : Reach s d x) :
+    s.psd x = some d ∧ ∃ c, s.parent x = some c ∧ x ∈ s.children c := by
+  have key : ∀ a y, Reach s a y → s.docOf a = some d → s.psd y = some d := by
+    intro a y r
+    induction r with
+    | edge hx => exact fun h => i.psdOk _ _ d hx h
+    | step hx _ ih =>
+      intro h
+      apply ih
+      have := i.psdOk _ _ d hx h
+      simp only [State.docOf, i.layerOnly _ _ hx, if_false]
+      exact this
+  refine ⟨key d x r (by simp [State.docOf, hd]), ?_⟩
+  obtain ⟨c, hc, _⟩ := r.last
+  exact ⟨c, i.parentOk c x hc, hc⟩
+
+/-- (I2) no layer is listed twice: one container, one position. -/
+theorem listed_once (s : State) (i : Inv s) (c c' x : Id) (h : x ∈ s.children c) (h' : x ∈ s.children c') :
+    c = c' ∧ (s.children c).count x = 1 :=
+  ⟨i.unique h h', by rw [(i.nodup c).count]; simp [h]⟩
+
+/-- (I3) no group is its own ancestor. -/
+theorem no_cycle (s : State) (i : Inv s) (x : Id) : ¬ Reach s x x := i.no_cycle x
+
+/-- (I4) `descendants()` visits every layer below `g` exactly once. -/
+theorem descendants_nodup (s : State) (i : Inv s) (g : Id) (ds : List Id) (h : desc s g = .ok ds) :
+    ds.Nodup ∧ ∀ x, x ∈ ds ↔ Reach s g x := descF_nodup i _ g ds h
+
+/-! ### Concrete states (non-vacuity and counterexamples) -/
+
+/-- `PSDImage.new`, one pixel layer appended, one empty group appended, one detached layer:
+document 0 lists [1, 2]; 3 is detached. -/
+def demo : State :=
+  runState .current (State.empty 50)
+    [.newDoc ⟨0, 0, 8, 8⟩, .newLayer (some 0) ⟨0, 0, 2, 2⟩, .newGroup (some 0), .newLayer (some 0) ⟨1, 1, 3, 3⟩,
+     .append 0 1]
+
+/-- on a well-formed store "listed nowhere" only has to be checked for the live containers -/
+theorem detached_of_bounded {s : State} {x : Id} (i : Inv s) (h : ∀ c, c < s.next → x ∉ s.children c) :
+    Detached s x := fun c hc => h c (i.live c x hc).1 hc
+
+theorem demo_inv : Inv demo := by
+  have i4 : Inv (runState .current (State.empty 50)
+      [.newDoc ⟨0, 0, 8, 8⟩, .newLayer (some 0) ⟨0, 0, 2, 2⟩, .newGroup (some 0), .newLayer (some 0) ⟨1, 1, 3, 3⟩]) :=
+    inv_history _ _ (inv_init 50) ⟨trivial, by decide, trivial, by decide, trivial, by decide, trivial, by decide, trivial⟩
+  exact inv_step_partial _ (.append 0 1) i4 (detached_of_bounded i4 (by decide)) (by decide)
+
+/-- non-vacuity of `inv_step_partial`: a guarded, accepted insertion -/
+example : Guard demo (.append 2 3) ∧ (step .current demo (.append 2 3)).2 = .none ∧
+    (step .current demo (.append 2 3)).1.children 2 = [3] :=
+  ⟨detached_of_bounded demo_inv (by decide), by decide, by decide⟩
+
+/-- **The full-strength invariant step is false** (known finding `C10/append/already-listed`):
+`psd.append(x)` for a layer that is already listed is accepted and lists it twice. -/
+theorem inv_step_false : ∃ (s : State) (op : Op), Inv s ∧ (step .current s op).2 = .none ∧
+    ¬ Inv (step .current s op).1 :=
+  ⟨demo, .append 0 1, demo_inv, by decide, fun h => absurd (h.nodup 0) (by decide)⟩
+
+/-- the same across containers: the layer is listed in the document and in the group, and its
+parent pointer names only the last one -/
+theorem append_listed_elsewhere : (step .current demo (.append 2 1)).2 = .none ∧
+    1 ∈ (step .current demo (.append 2 1)).1.children 0 ∧ 1 ∈ (step .current demo (.append 2 1)).1.children 2 ∧
+    (step .current demo (.append 2 1)).1.parent 1 = some 2 := by decide
+
+/-- the repaired code refuses `g.extend([g])` and leaves the lists alone … -/
+theorem extend_self_refused : (step .current demo (.extend 2 [2])).2 = .error .assertionError ∧
+    (step .current demo (.extend 2 [2])).1.children 2 = [] := by decide
+
+/-- … the snapshot accepted it (`_check_valid_layers` compared the list, not its items), listed the
+group in itself and then failed with RecursionError: a cycle, and a refused operation that changed
+the tree (fixed: cec89fb). -/
+theorem legacy_extend_self_cycle : (step .legacy demo (.extend 2 [2])).2 = .error .recursionError ∧
+    2 ∈ (step .legacy demo (.extend 2 [2])).1.children 2 := by decide
+
+/-- document 0 lists [1, 2]; group 1 lists [3] -/
+def demo2 : State :=
+  runState .current (State.empty 50)
+    [.newDoc ⟨0, 0, 8, 8⟩, .newGroup (some 0), .newLayer (some 0) ⟨0, 0, 2, 2⟩, .newLayer (some 0) ⟨1, 1, 3, 3⟩,
+     .append 0 2, .append 1 3]
+
+/-- `group_layers([g, x], parent=g)`: the snapshot moved both layers into the new group and was then
+refused by `parent.append(group)` — the document lost them (fixed: 09c40bc) … -/
+theorem legacy_group_layers_refused_changed :
+    (step .legacy demo2 (.groupLayers [1, 2] (some 1))).2 = .error .assertionError ∧
+    (step .legacy demo2 (.groupLayers [1, 2] (some 1))).1.children 0 = [] := by decide
+
+/-- … the repaired code refuses before anything is moved. -/
+theorem group_layers_refused_unchanged :
+    (step .current demo2 (.groupLayers [1, 2] (some 1))).2 = .error .assertionError ∧
+    (step .current demo2 (.groupLayers [1, 2] (some 1))).1.children 0 = [1, 2] := by decide
+
+/-- the snapshot's `descendants()` also yielded `clip_layers` of every child: with layer 2 clipped
+to layer 1 it is visited twice (fixed: 277014b) -/
+theorem legacy_descendants_twice :
+    (descLegacyF (fun x => if x = 1 then [2] else []) demo2 50 0).toOption = some [1, 3, 2, 2] ∧
+    (desc demo2 0).toOption = some [1, 3, 2] := by
+  decide
+
+/-- Why the recursion limit appears in the hypotheses: with a budget of 1 the traversal made by
+`_update_layer_metadata` fails AFTER the list was changed — the refused operation leaves the
+layer listed with no parent pointer. -/
+theorem recursion_limit_after_mutation :
+    let s := { demo with limit := 1 }
+    (step .current s (.append 0 3)).2 = .error .recursionError ∧
+    3 ∈ (step .current s (.append 0 3)).1.children 0 ∧ (step .current s (.append 0 3)).1.parent 3 = none := by
+  decide
 
 end PsdVerif.C10
